@@ -804,6 +804,24 @@ def build_item(cur, log):
                     ed.insert(toks[lo_].end, f" let {v} = *{v}__r;")
                     log.append(("R1", where, text[toks[lk].start:toks[lo_].end]))
                 continue
+            if toks[a1].text == "&" and toks[a2].text == "(":
+                # `for &(a, b) in E {` -> `for p__r in E.iter() { let (a, b) = *p__r;`
+                pe = match_forward(toks, a2)
+                a3 = next_code(toks, pe)
+                if toks[a3].text != "in": continue
+                pat = text[toks[a2].start:toks[pe].end]
+                pv = f"p__{lk}"
+                ed.replace(toks[a1].start, toks[pe].end, pv)
+                last = prev_code(toks, lo_)
+                expr = text[toks[a3].end:toks[last].end].strip()
+                if not expr.endswith(".iter()"):
+                    ed.insert(toks[last].end, ".iter()")
+                    amp = next_code(toks, a3)
+                    if toks[amp].text == "&" and re.fullmatch(r"&[\w\.]+", expr):
+                        ed.replace(toks[amp].start, toks[amp].end, "")
+                ed.insert(toks[lo_].end, f" let {pat} = *{pv};")
+                log.append(("R1", where, text[toks[lk].start:toks[lo_].end]))
+                continue
             if toks[a1].text == "&" and toks[a2].kind == "ident" and toks[a3].text == "in":
                 v = toks[a2].text
                 ed.replace(toks[a1].start, toks[a2].end, v + "__r")
@@ -811,6 +829,9 @@ def build_item(cur, log):
                 expr = text[toks[a3].end:toks[last].end].strip()
                 if not expr.endswith(".iter()"):
                     ed.insert(toks[last].end, ".iter()")
+                    amp = next_code(toks, a3)
+                    if toks[amp].text == "&" and re.fullmatch(r"&[\w\.]+", expr):
+                        ed.replace(toks[amp].start, toks[amp].end, "")   # `&v` -> `v.iter()`
                 ed.insert(toks[lo_].end, f" let {v} = *{v}__r;")
                 log.append(("R1", where, text[toks[lk].start:toks[lo_].end]))
     if "R25" in rules:
@@ -818,11 +839,12 @@ def build_item(cur, log):
         for (lk, lo_, lc_) in loops:
             if toks[lk].text != "for": continue
             a1 = next_code(toks, lk)
+            if toks[a1].text == "&" and "R1" in rules: continue
             a2 = next_code(toks, match_forward(toks, a1)) if toks[a1].text == "(" else next_code(toks, a1)
             if toks[a2].text != "in": continue
             last = prev_code(toks, lo_)
             expr = text[toks[a2].end:toks[last].end].strip()
-            if re.fullmatch(r"&?[\w\.]+", expr) and not expr.endswith(")"):
+            if re.fullmatch(r"&?[\w\.]+", expr) and not expr.endswith(")") and ".." not in expr:
                 amp = next_code(toks, a2)
                 if toks[amp].text == "&": ed.replace(toks[amp].start, toks[amp].end, "")
                 ed.insert(toks[last].end, ".iter()")
